@@ -174,7 +174,7 @@ pub fn run(e: &'static Engine) {
         }));
     }
     e.par(jobs);
-    super::common::standard_parts(e, 9600, 144000, check);
+    super::common::standard_parts(e, 48000, 384000, check);
     e.put("cells_total", json!(480));
     e.set_exhaustive(false, "all 480 (version, level, mode) cells with their boundary lengths are enumerated; payload content is sampled");
 }
